@@ -25,6 +25,75 @@ CLAIMED = {
              "and required on every MSS 0->1 step.",
         tech="CBMC bounded model checking, symbolic error code / register values, one step from arbitrary coherent state",
         ref="3 C12"),
+    "C01": dict(
+        text="Layered bounded model checking with CBMC's memory-safety, pointer, overflow, shift and unwinding (termination) obligations on "
+             "every layer of the library, each from an ARBITRARY pre-state: all token recognisers on every byte string up to the bound with the "
+             "logical end of input at the end of the object; program-data/unit detection; every parameter-decoding and expression API applied "
+             "twice to arbitrary NUL-terminated data; SCPI_Input's buffer logic incl. overrun (-363), zero-length calls and exact-size buffers of "
+             "2..7 bytes; every buffer-filling API with exact-size caller buffers of symbolic length; block/array emitters; queue and static-heap "
+             "steps; in the default, no-info, static-heap and built-in-dtostre configurations. Solver-only pointer reports inside /repo count as violations here.",
+        tech="CBMC bounded model checking (bounds/pointer/overflow/shift/unwinding obligations) layer by layer from arbitrary pre-states",
+        ref="3 C01"),
+    "C02": dict(
+        text="Real SCPI_Parse (unit loop, in-place compound-header composition, first-match lookup, -113 with unit text, SCPI_CmdTag/SCPI_IsCmd) "
+             "on every well-formed message up to the bound over {A B C : ; ? * LF} against an 8-entry table with overlapping patterns, an optional "
+             "keyword, a query and a common command; the oracle recomputes effective headers from the text by the stated rule and the expected "
+             "first-matching entry. Pattern acceptance inside the run is the reference relation of the table (the real matcher is C03's subject).",
+        tech="CBMC bounded model checking of real SCPI_Parse dispatch on symbolic messages vs text-level compound-header oracle",
+        ref="3 C02"),
+    "C04": dict(
+        text="Real typed parameter readers on symbolic literals: for every 488.2 decimal literal up to the bound the text handed to libc "
+             "strtod/strtof (exact consumed-prefix model) must be consumed to the end of the literal and the value returned unchanged; every "
+             "[sign]digits and #H/#Q/#B literal that fits the type decodes exactly (Horner oracle) through the four integer readers and as "
+             "double/float; every row of the real unit table in every letter case with 0..2 blanks gives its unit and value*multiplier; every "
+             "special mnemonic in short/long form gives its tag.",
+        tech="CBMC bounded model checking of real Param* readers with exact strto* models, symbolic literals and symbolic unit-table index",
+        ref="3 C04"),
+    "C05": dict(
+        text="Reader level: every data list of up to 4/5 symbolic bytes (16-symbol alphabet with every data type and malformed fragments), "
+             "well formed per the reference parser, read by two typed readers (pairs from Int32/Double/Bool/Choice/CopyText/Number, mandatory "
+             "flags symbolic): success with the item as written or exactly -104/-138/-131/-224/-109, absent optional silent, never FALSE "
+             "without an error, -108 for leftovers. Message level: concrete data templates (well formed and malformed) through real SCPI_Parse "
+             "with symbolic handler behaviour: malformed data never reach the handler and raise -1xx, -200 for silent failure, -108, -109, "
+             "result == no error; SCPI_Input's return value is checked in the input-buffer harness.",
+        tech="CBMC bounded model checking: symbolic parameter lists at reader level + concrete templates through real SCPI_Parse with symbolic handlers",
+        ref="3 C05"),
+    "C06": dict(
+        text="Real SCPI_Parse on every query/command template of 1..3 (quick) / 1..4 and selected 5-6 (thorough) units with SYMBOLIC handler "
+             "behaviour (0..3 items from six result kinds incl. streamed blocks, error pushed at any point, OK/ERR) and ARBITRARY carried-over "
+             "response state; the exact output bytes, the single terminator and the single flush are compared with the framing rule.",
+        tech="CBMC bounded model checking of real SCPI_Parse response framing with symbolic handler behaviour on concrete unit templates",
+        ref="3 C06"),
+    "C07": dict(
+        text="Real SCPI_Result* -> recording callback -> real lexer and SCPI_Param* round trips: every 32/64-bit value in bases 2/8/16 (digit "
+             "generator replaced by its C14 contract: any canonical digit string of the magnitude), decimal with the real digit generator on a "
+             "magnitude slice, booleans, every 7-bit text up to 5/6 characters incl. both quotes, every block up to 12 bytes, ASCII int32 arrays. "
+             "Floats/doubles are not claimed (see C16).",
+        tech="CBMC bounded model checking of format->lex->decode round trips, contract stub for digit generation",
+        ref="3 C07"),
+    "C08": dict(
+        text="Two solver-checked parts. (1) Stability lemma on the REAL unit detector with all real lexers: for every byte string up to the "
+             "bound and every shorter prefix, a unit decision that did not depend on where the available data ended (terminator found, or an "
+             "offending character before the end) is identical on the longer input (CR|LF split tolerated). (2) Functional specification of the "
+             "REAL SCPI_Input with an abstract detector that satisfies the lemma by construction: for every stream over all byte values cut into "
+             "1..3 chunks at symbolic positions, the executed messages are exactly the LF-terminated segments, the remainder is the tail, a "
+             "zero-length call executes the remainder; overrun resets, queues -363 and returns FALSE. By induction over units and chunks the two "
+             "give chunking invariance. The direct two-context differential did not finish within 900 s even for 3-byte streams.",
+        tech="CBMC bounded model checking: stability lemma on real detector + functional spec of real SCPI_Input with abstract detector",
+        ref="3 C08"),
+    "C09": dict(
+        text="Differential check on two contexts: B after message A (7 concrete A templates: complete, failing midway, unfinished block, "
+             "incomplete string, undefined header, common command) and after ARBITRARY values in every carried-over parser field, versus B on a "
+             "fresh context, with symbolic handler behaviour: same handler calls, effective headers, parameters, output bytes, new errors, result.",
+        tech="CBMC differential bounded model checking of real SCPI_Parse on two contexts with havocked carried-over parser state",
+        ref="3 C09"),
+    "C19": dict(
+        text="Real SCPI_ExprNumericListEntry(/Int) and SCPI_ExprChannelListEntry on every expression body up to the bound over a 16-symbol "
+             "alphabet, symbolic entry index, exact-size value arrays of capacity 0..2/4: OK only if the entry and all before it are well formed "
+             "(reference list parser), exact entry/range/dimensions for well-formed lists and NO_MORE beyond, ERROR with -170 once a malformed "
+             "channel list's bad part is reached, nothing stored beyond the capacity. Value conversion is stubbed to report WHICH literal was converted.",
+        tech="CBMC bounded model checking of real expression.c list walkers vs reference list parser",
+        ref="3 C19"),
     "C03": dict(
         text="For each concrete pattern (every pattern shipped in /repo tests and examples, harvested at run time, plus a generated "
              "family with every optional/numeric placement) the real matchCommand runs on a SYMBOLIC header (all strings up to the "
